@@ -8,7 +8,7 @@ import os
 import re
 
 from ..core import cfront as C
-from ..core.absint import Interp, alternatives, pretty
+from ..core.absint import Interp, alternatives, result_alternatives, pretty
 from ..core.analysis import Analysis, facts
 from ..core.forms import canon
 from ..core.pyrepo import Repo, calls_in, dotted, norm_stmt
@@ -147,6 +147,7 @@ def run(ctx):
              "records, not NUL-terminated when full) never reach a consumer that "
              "expects a C string; only length-bounded consumers", floor=3)
     nfield = 0
+    by_name = {fn["name"]: fn for _, fn in funcs}
     for file, fn in funcs:
         aliases = _field_aliases(fn)
         for n in C.walk(fn):
@@ -207,6 +208,26 @@ def run(ctx):
                         ctx.fail("C17.R2", key + ":bound", fn["_file"], n["_line"], fn["name"],
                                  f"`{cn}` on {rec}.{mname}: the length bound is not "
                                  f"sizeof/strnlen of the {width}-byte field")
+                elif cn in by_name and _helper_bounds(by_name[cn], i) is not None:
+                    # a helper of this extension: every use of the pointer inside it is a
+                    # length-bounded consumer whose bound is another parameter; that
+                    # parameter must be bound to sizeof(member) here
+                    qs = _helper_bounds(by_name[cn], i)
+                    good = bool(qs) and all(
+                        q < len(args) and (
+                            ((_sizeof_target(args[q]) or ("", 1))[0] == mname
+                             and (_sizeof_target(args[q]) or ("", 1))[1] <= 0)
+                            or (C.int_value(args[q]) is not None
+                                and 0 < C.int_value(args[q]) <= width))
+                        for q in qs)
+                    if good:
+                        ctx.ok("C17.R2", key, sample=f"{cn}({mname}, sizeof({mname})): the helper "
+                               f"only uses the pointer under that bound")
+                    else:
+                        ctx.fail("C17.R2", key + ":bound", fn["_file"], n["_line"], fn["name"],
+                                 f"`{cn}` bounds its reads of {rec}.{mname} by parameter(s) "
+                                 f"{sorted(qs)}, which this call does not bind to "
+                                 f"sizeof({mname}) (<= {width})")
                 else:
                     ctx.fail("C17.R2", key + ":unknown", fn["_file"], n["_line"], fn["name"],
                              f"{rec}.{mname} (fixed width, maybe unterminated) is passed to "
@@ -465,6 +486,62 @@ def _bounded(args, i, width, cn):
         if v is not None and 0 < v <= width:
             return True
     return False
+
+
+_BOUNDED_CONSUMERS = ("strnlen", "strncmp", "memcmp", "strncpy", "memcpy",
+                      "PyUnicode_DecodeFSDefaultAndSize", "PyBytes_FromStringAndSize",
+                      "PyUnicode_FromStringAndSize", "snprintf")
+
+
+def _helper_bounds(fn, p):
+    """fn: a function of the extension, p: index of a pointer parameter.  If EVERY
+    use of that parameter in fn is as a direct argument of a length-bounded consumer
+    whose bound is another parameter q (or strnlen(param, q)), the set of such q;
+    None when some use is not of that shape (the helper may read unboundedly)."""
+    params = [k.get("name") for k in C.kids(fn) if k.get("kind") == "ParmVarDecl"]
+    if p >= len(params):
+        return None
+    me = params[p]
+
+    def is_ref(e, name):
+        e = C.strip_all(e)
+        return e.get("kind") == "DeclRefExpr" and (e.get("referencedDecl") or {}).get("name") == name
+
+    def bound_params(args, i):
+        out = set()
+        for j, a in enumerate(args):
+            if j == i:
+                continue
+            for q, qn in enumerate(params):
+                if q != p and is_ref(a, qn):
+                    out.add(q)
+            core = C.strip_all(a)
+            if core.get("kind") == "CallExpr" and C.callee(core) == "strnlen":
+                ia = C.call_args(core)
+                if ia and is_ref(ia[0], me):
+                    out |= bound_params(ia, 0)
+        return out
+
+    total = sum(1 for n in C.walk(fn) if n.get("kind") == "DeclRefExpr"
+                and (n.get("referencedDecl") or {}).get("name") == me)
+    matched, qs = 0, set()
+    for n in C.walk(fn):
+        if n.get("kind") != "CallExpr":
+            continue
+        args = C.call_args(n)
+        for i, a in enumerate(args):
+            if not is_ref(a, me):
+                continue
+            if C.callee(n) not in _BOUNDED_CONSUMERS:
+                return None
+            b = bound_params(args, i)
+            if not b:
+                return None
+            matched += 1
+            qs |= b
+    if matched != total or not matched:
+        return None
+    return qs
 
 
 def _sizeof_target(e):
@@ -793,7 +870,7 @@ def _r7(ctx, funcs):
     I = Interp(repo, A)
     us = repo.func("_pslinux", "users")
     tu_ = canon(I.call_function(us, []))
-    recs = [x for a in alternatives(tu_) if a[0] == "listof" for x in alternatives(a[1])
+    recs = [x for a in result_alternatives(tu_) if a[0] == "listof" for x in alternatives(a[1])
             if x[0] == "nt"]
     py_ok = False
     if recs:
